@@ -17,6 +17,7 @@ import (
 	"fmt"
 	"os"
 	"path/filepath"
+	"runtime/debug"
 	"sort"
 	"strings"
 	"sync"
@@ -56,20 +57,17 @@ type History struct {
 }
 
 const (
-	shapeSharedRoot      = "retained-root-record-equals-pruned-older-root"
-	shapeStaleFork       = "stale-index-entry-of-dead-fork-at-never-recommitted-height-shadows-live-version"
-	shapeStaleSurvived   = "stale-index-entry-survived-recommit-dead-fork-root-record-rewritten-by-identical-root-at-other-height"
-	shapeMemTree         = "memtree-serves-stale-children-of-rewritten-recurring-root-record-after-prune"
-	shapeMemTreeRecommit = "memtree-recommit-replaces-dead-fork-node-under-same-key-stale-index-entry-survives"
+	shapeSharedRoot       = "retained-root-record-equals-pruned-older-root"
+	shapeStaleFork        = "stale-index-entry-of-dead-fork-at-never-recommitted-height-shadows-live-version"
+	shapeStaleSurvived    = "stale-index-entry-survived-recommit-dead-fork-root-record-rewritten-by-identical-root-at-other-height"
+	shapeMemTree          = "memtree-serves-stale-children-of-rewritten-recurring-root-record-after-prune"
+	shapeMemTreeRecommit  = "memtree-recommit-replaces-dead-fork-node-under-same-key-stale-index-entry-survives"
+	shapeMemTreeBuild     = "memtree-state-built-on-older-incarnation-of-recurring-root-references-superseded-version"
+	shapeStaleSecondLevel = "stale-second-level-index-entry-of-dead-fork-not-removed-by-recommit"
 )
 
 // ---------------------------------------------------------------------------------------------
 // model simulation (no store): strata and generator support
-
-type simEntry struct {
-	H     int64
-	Saved bool
-}
 
 // stratumOf derives the stratum from the history itself: "clean" histories never contain a trigger of a recorded
 // finding: (P1) no Save produces a whole-state content that an earlier Save produced; (P2) no prune runs while a
@@ -294,6 +292,9 @@ func guard(f func()) (p string) {
 	defer func() {
 		if e := recover(); e != nil {
 			p = strings.TrimSpace(fmt.Sprint(e))
+			if os.Getenv("VERIF_C05_TRACE") != "" {
+				fmt.Fprintf(os.Stderr, "PANIC %s\n%s\n", p, debug.Stack())
+			}
 		}
 	}()
 	f()
@@ -374,12 +375,10 @@ func (r *runner) walk(root []byte, stateH int64, get func(string) ([]byte, bool)
 			if miss != nil {
 				*miss = append(*miss, missNode{Key: k, StateH: stateH, IsRoot: isRoot})
 			}
-			if fallback == nil {
-				return
-			}
-			if v, ok = fallback[k]; !ok {
-				return
-			}
+			// do not descend below a missing record: an older incarnation of the record (from the snapshot) may
+			// point to nodes this state never referenced
+			_ = fallback
+			return
 		}
 		var sn types.StoreNode
 		if types.Decode(v, &sn) != nil {
@@ -647,6 +646,9 @@ func (r *runner) classify(m missNode) (shape, why string) {
 			case len(deadRoots) > 0 && !recommitted:
 				got[shapeStaleFork] = fmt.Sprintf("%s deleted through index entry (%q@%d); the newest eligible entry (%q@%d) was saved on an abandoned branch (not a write of the current chain; referenced by a retained state=%v) and height %d was never saved again",
 					desc, c.Key, c.H, e0.Key, e0.H, e0Live, e0.H)
+			case len(deadRoots) > 0 && recommitted && strings.HasPrefix(g, "\x00old\x00"):
+				got[shapeStaleSecondLevel] = fmt.Sprintf("%s deleted through index entry (%q@%d); the newest eligible entry (%q@%d) is a dead fork's that a prune run had moved to the second-level index (curHeight >= height+500000); height %d WAS saved again but DelLeafCountKV only deletes first-level index keys",
+					desc, c.Key, c.H, e0.Key, e0.H, e0.H)
 			case len(deadRoots) > 0 && recommitted && r.rootRecurs(deadRoots, e0.H):
 				got[shapeStaleSurvived] = fmt.Sprintf("%s deleted through index entry (%q@%d); the newest eligible entry (%q@%d) is a dead fork's; height %d WAS saved again but DelLeafCountKV did not remove it: the dead fork's root hash at %d was also produced by a Save at another height, which rewrote the unprefixed root record",
 					desc, c.Key, c.H, e0.Key, e0.H, e0.H, e0.H)
@@ -681,6 +683,19 @@ func (r *runner) classify(m missNode) (shape, why string) {
 				continue
 			}
 		}
+		if r.h.Cfg.MemTree {
+			var e0roots []string
+			for _, ce := range r.chain {
+				if ce.H == e0.H && ce.Saved {
+					e0roots = append(e0roots, string(ce.Root))
+				}
+			}
+			if r.rootRecurs(e0roots, e0.H) {
+				got[shapeMemTreeBuild] = fmt.Sprintf("%s deleted through superseded entry (%q@%d); the newest eligible entry (%q@%d) is a write of the current chain whose Save re-produced a root hash of another height (content-identical rewrite) with memTree on: later states were built on memTree's older incarnation of that root record and still reference the superseded leaf",
+					desc, c.Key, c.H, e0.Key, e0.H)
+				continue
+			}
+		}
 		got["live-record-on-superseded-version-path:"+kind] = fmt.Sprintf("%s deleted through superseded entry (%q@%d) although newest eligible (%q@%d) is a write of the current chain", desc, c.Key, c.H, e0.Key, e0.H)
 	}
 	if len(got) == 0 {
@@ -699,7 +714,8 @@ func (r *runner) classify(m missNode) (shape, why string) {
 	return strings.Join(ss, "+"), strings.Join(ws, " | ")
 }
 
-var recordedShapes = map[string]bool{shapeSharedRoot: true, shapeStaleFork: true, shapeStaleSurvived: true, shapeMemTree: true, shapeMemTreeRecommit: true}
+var recordedShapes = map[string]bool{shapeSharedRoot: true, shapeStaleFork: true, shapeStaleSurvived: true, shapeMemTree: true, shapeMemTreeRecommit: true,
+	shapeMemTreeBuild: true, shapeStaleSecondLevel: true}
 
 // reachableFromRootsAt walks (pre-prune snapshot) every root the DB recorded at height h and reports whether node is reachable.
 func (r *runner) reachableFromRootsAt(h int64, node string) bool {
@@ -1015,11 +1031,19 @@ func (r *runner) explainCommitFailure(op int, H int64, msg string) {
 	if len(r.viols) > 0 {
 		return
 	}
+	// roots of retained states were just checked (intact); every other root recorded at H is unprotected
 	onChain := map[string]bool{}
-	for _, e := range r.chain {
+	for _, e := range r.retained() {
 		onChain[string(e.Root)] = true
 	}
 	damaged := 0
+	if os.Getenv("VERIF_C05_TRACE") != "" {
+		for k := range r.dbKeys() {
+			if strings.HasPrefix(k, "_mrhp_") {
+				fmt.Fprintf(os.Stderr, "explain: rootrec %q\n", k[:16]+hex.EncodeToString([]byte(k[16:]))[:12])
+			}
+		}
+	}
 	it := r.db.Iterator(mavldb.VerifBRootHashPrefix(H), nil, false)
 	for it.Rewind(); it.Valid(); it.Next() {
 		root, err := mavldb.VerifBRootFromKey(append([]byte{}, it.Key()...))
@@ -1031,11 +1055,14 @@ func (r *runner) explainCommitFailure(op int, H int64, msg string) {
 		if len(miss) > 0 {
 			damaged++
 		}
+		if os.Getenv("VERIF_C05_TRACE") != "" {
+			fmt.Fprintf(os.Stderr, "explain: root at %d %s missing=%d\n", H, printable(string(root)), len(miss))
+		}
 	}
 	it.Close()
 	if damaged > 0 && r.maxEver() >= H {
 		r.cnt["adjacent_recommit_panics_on_pruned_dead_fork_root"]++
-		r.adjacent = append(r.adjacent, fmt.Sprintf("%s; retained states intact; %d dead-fork root(s) recorded at height %d have pruned nodes (DelLeafCountKV walks them)", msg, damaged, H))
+		r.adjacent = append(r.adjacent, fmt.Sprintf("%s; retained states intact; %d unprotected root(s) recorded at height %d (dead fork / state below the retained interval) have pruned nodes (DelLeafCountKV walks them)", msg, damaged, H))
 		return
 	}
 	r.cnt["commit_failures_unexplained"]++
@@ -1200,7 +1227,24 @@ func fixedWitnesses() []History {
 	if err := json.Unmarshal([]byte(`{"idx": 0, "gen": "witness-F-C05-5", "start": 1, "cfg": {"ph": 2, "memtree": true}, "ops": [{"t": "commit", "d": 1, "kv": [["j", "1"], ["c", "3"]]}, {"t": "commit", "d": 1, "kv": [["a", "2"]]}, {"t": "commit", "d": 1, "kv": [["f", "u5"]]}, {"t": "commit", "d": 1, "kv": [["b", "2"]]}, {"t": "commit", "d": 1, "kv": [["d", "2"]]}, {"t": "commit", "d": 1, "kv": [["f", "2"]]}, {"t": "commit", "d": 1, "kv": [["c", "3"], ["d", "1"]]}, {"t": "rollback", "d": 3}, {"t": "commit", "d": 1, "kv": [["h", "u9"]]}, {"t": "reopen"}, {"t": "commit", "d": 1, "kv": [["b", "u10"]]}, {"t": "commit", "d": 3, "kv": [["i", "1"]]}, {"t": "rollback", "d": 2}, {"t": "commit", "d": 1, "kv": [["g", "1"]]}, {"t": "commit", "d": 1, "kv": [["d", "1"]]}, {"t": "commit", "d": 1, "kv": [["d", "3"]]}, {"t": "commit", "d": 1, "kv": [["c", "3"]]}, {"t": "prune"}]}`), &w5); err != nil {
 		panic(err)
 	}
-	return []History{w1, w2, w3, w4, w5}
+	// F-C05-6: memTree + content-identical rewrite (root recurs): the next state is built on the older incarnation.
+	w6 := History{Gen: "witness-F-C05-6", Start: 100, Cfg: Cfg{PH: 1, MemTree: true, MemVal: true, UseSet: true}, Ops: []Op{
+		{T: "commit", D: 1, KV: kv("k0", "3", "k00", "3")},
+		{T: "commit", D: 2, KV: kv("k0", "3")},
+		{T: "commit", D: 1, KV: kv("k", "3")},
+	}}
+	// F-C05-7: a dead fork's index entry that a prune moved to the second level survives the re-commit of its height.
+	w7 := History{Gen: "witness-F-C05-7", Start: 499990, Cfg: Cfg{PH: 3}, Ops: []Op{
+		{T: "commit", D: 1, KV: kv("p", "1", "q", "1", "r", "1")},
+		{T: "commit", D: 6, KV: kv("q", "2")},
+		{T: "rollback", D: 1},
+		{T: "commit", D: 500006, KV: kv("v", "u1")},
+		{T: "rollback", D: 1},
+		{T: "commit", D: 6, KV: kv("s", "u2")},
+		{T: "commit", D: 500004, KV: kv("x", "u3")},
+		{T: "prune"},
+	}}
+	return []History{w1, w2, w3, w4, w5, w6, w7}
 }
 
 var keyAlphabets = [][]string{
@@ -1410,7 +1454,7 @@ func run(c *lib.Ctx) {
 		jobs = append(jobs, job{w, stratumOf(&w)})
 		idx++
 	}
-	nClean, nTrig, nLarge := c.N(72, 2600), c.N(44, 1400), c.N(0, 20)
+	nClean, nTrig, nLarge := c.N(140, 2600), c.N(90, 1400), c.N(0, 20)
 	if c.Quick() {
 		nLarge = 0
 	}
@@ -1436,6 +1480,9 @@ func run(c *lib.Ctx) {
 	for _, j := range jobs {
 		if only != "" && only != fmt.Sprint(j.h.Idx) {
 			continue
+		}
+		if only != "" {
+			fmt.Fprintf(os.Stderr, "HISTORY %s\n", lib.JSON(batchIn{Hs: []History{j.h}}))
 		}
 		if !c.Skip(j.h.Idx) {
 			run = append(run, j)
@@ -1523,7 +1570,8 @@ func run(c *lib.Ctx) {
 	}
 	c.Extra("adjacent_failures_not_deciding", adjacentSamples)
 	c.Extra("known_witness_reproduced", map[string]bool{"F-C05-1": knownSeen[shapeSharedRoot], "F-C05-2": knownSeen[shapeStaleFork],
-		"F-C05-3": knownSeen[shapeStaleSurvived], "F-C05-4": knownSeen[shapeMemTree], "F-C05-5": knownSeen[shapeMemTreeRecommit]})
+		"F-C05-3": knownSeen[shapeStaleSurvived], "F-C05-4": knownSeen[shapeMemTree], "F-C05-5": knownSeen[shapeMemTreeRecommit],
+		"F-C05-6": knownSeen[shapeMemTreeBuild], "F-C05-7": knownSeen[shapeStaleSecondLevel]})
 	c.RequireEvents("reads_compared", 2000)
 	c.RequireEvents("prune_runs_that_deleted", 20)
 	c.RequireEvents("recommits_at_used_height", 10)
